@@ -47,12 +47,13 @@ theorem conf_reset {d b : Bytes} (h : respConforms (CLA :: u8 Command_RESET_AB :
 theorem sign_not_exit : CMD_SIGN.toNat ≠ 0xFF ∧ CMD_SIGN.toNat ≠ 0xFA := by decide
 
 namespace Dongle
+variable {lf : Bool}
 
 /-! ### generic pieces -/
 
 theorem catchResult_safe {m : M α} {h : Nat → M α} {Q : α → Prop} {E' : Exc → Prop}
-    (ht : Tracks m) (hm : Safe m Q (fun e => isResult e = true)) (hh : ∀ sw, Safe (h sw) Q E') :
-    Safe (catchResult m h) Q E' := by
+    (ht : Tracks m) (hm : Safe lf m Q (fun e => isResult e = true)) (hh : ∀ sw, Safe lf (h sw) Q E') :
+    Safe lf (catchResult m h) Q E' := by
   unfold catchResult
   refine Safe.tryCatchIf ht hm ?_ ?_
   · intro e he _
@@ -64,8 +65,8 @@ theorem catchResult_safe {m : M α} {h : Nat → M α} {Q : α → Prop} {E' : E
 
 /-- …a variant for bodies that may also raise other exceptions, which pass through -/
 theorem catchResult_safe' {m : M α} {h : Nat → M α} {Q : α → Prop} {E E' : Exc → Prop}
-    (ht : Tracks m) (hm : Safe m Q E) (hh : ∀ sw, Safe (h sw) Q E')
-    (hpass : ∀ e, E e → isResult e = false → E' e) : Safe (catchResult m h) Q E' := by
+    (ht : Tracks m) (hm : Safe lf m Q E) (hh : ∀ sw, Safe lf (h sw) Q E')
+    (hpass : ∀ e, E e → isResult e = false → E' e) : Safe lf (catchResult m h) Q E' := by
   unfold catchResult
   refine Safe.tryCatchIf ht hm ?_ ?_
   · intro e _ hp
@@ -76,14 +77,14 @@ theorem catchResult_safe' {m : M α} {h : Nat → M α} {Q : α → Prop} {E E' 
     cases e <;> simp [isResult] at hp ⊢
 
 theorem nextSize_safe {resp : Bytes} {E : Exc → Prop} (h : 4 ≤ resp.length) :
-    Safe (nextSize resp) (fun _ => True) E := by
+    Safe lf (nextSize resp) (fun _ => True) E := by
   unfold nextSize
   exact Safe.bind (idx_tracks _ _) (idx_safe (E := E) (by omega)) fun _ _ => Safe.pure trivial
 
 /-- the chunked transfer, also recording what a reported success says about the last answer -/
 theorem sendChunks_safe_ok (cmd op : UInt8) (nexts : List UInt8) (data : Bytes) (full : Bool) (init : Nat)
     (hx : cmd.toNat ≠ 0xFF ∧ cmd.toNat ≠ 0xFA) (hc : ChunkAnswers cmd op) :
-    Safe (sendChunks cmd op nexts data full init)
+    Safe lf (sendChunks cmd op nexts data full init)
       (fun p => (∃ d, respConforms (CLA :: cmd :: op :: d) (.data p.2) = true) ∧
         (p.1 = true → ∃ rop, p.2[2]? = some rop ∧ rop ∈ nexts))
       (fun e => isResult e = true) := by
@@ -123,7 +124,7 @@ theorem chunkAnswers_sign {op : UInt8} (hop : op.toNat = 2 ∨ op.toNat = 4 ∨ 
   rw [getD_of_getElem? h2]
   exact hop
 
-theorem signStep1_safe (a : SignAuthArgs) : Safe (signStep1 a) (fun _ => True) (fun _ => False) := by
+theorem signStep1_safe (a : SignAuthArgs) : Safe lf (signStep1 a) (fun _ => True) (fun _ => False) := by
   unfold signStep1
   refine catchResult_safe ?_ ?_ fun _ => Safe.pure trivial
   · repeat' tracks_step
@@ -143,8 +144,8 @@ theorem chunkStep_safe {β : Type} (op : UInt8) (nexts : List UInt8) (data : Byt
     (hop : op.toNat = 2 ∨ op.toNat = 4 ∨ op.toNat = 8) (hpt : ∀ r, Tracks (post r))
     (hp : ∀ resp, (∃ d, respConforms (CLA :: CMD_SIGN :: op :: d) (.data resp) = true) →
       (∃ rop, resp[2]? = some rop ∧ rop ∈ nexts) →
-      Safe (post resp) (fun _ => True) (fun e => isResult e = true)) :
-    Safe (chunkStep op nexts data init rule post) (fun _ => True) (fun _ => False) := by
+      Safe lf (post resp) (fun _ => True) (fun e => isResult e = true)) :
+    Safe lf (chunkStep op nexts data init rule post) (fun _ => True) (fun _ => False) := by
   unfold chunkStep
   refine catchResult_safe ?_ ?_ fun _ => Safe.pure trivial
   · refine Tracks.bind (sendChunks_tracks _ _ _ _ _ _) fun p => ?_
@@ -160,7 +161,7 @@ theorem chunkStep_safe {β : Type} (op : UInt8) (nexts : List UInt8) (data : Byt
     | false => exact Safe.pure trivial
     | true => exact hp resp hq.1 (hq.2 rfl)
 
-theorem signTail4_safe (pp : Bytes) (req3 : Nat) : Safe (signTail4 pp req3) (fun _ => True) (fun _ => False) := by
+theorem signTail4_safe (pp : Bytes) (req3 : Nat) : Safe lf (signTail4 pp req3) (fun _ => True) (fun _ => False) := by
   unfold signTail4
   refine Safe.bind (chunkStep_tracks _ _ _ _ _ _ fun _ => Tracks.pure _)
     (chunkStep_safe _ _ _ _ _ _ (Or.inr (Or.inr op_proof)) (fun _ => Tracks.pure _)
@@ -168,7 +169,7 @@ theorem signTail4_safe (pp : Bytes) (req3 : Nat) : Safe (signTail4 pp req3) (fun
   unfold orFail
   split <;> exact Safe.pure trivial
 
-theorem signProof_safe (a : SignAuthArgs) (req3 : Nat) : Safe (signProof a req3) (fun _ => True) (fun _ => False) := by
+theorem signProof_safe (a : SignAuthArgs) (req3 : Nat) : Safe lf (signProof a req3) (fun _ => True) (fun _ => False) := by
   unfold signProof
   split
   · exact Safe.pure trivial
@@ -178,7 +179,7 @@ theorem post_nextSize_safe {op next : UInt8} (hop : op.toNat = 1 ∨ op.toNat = 
     (hn : next.toNat = 2 ∨ next.toNat = 4 ∨ next.toNat = 8) (resp : Bytes)
     (h1 : ∃ d, respConforms (CLA :: CMD_SIGN :: op :: d) (.data resp) = true)
     (h2 : ∃ rop, resp[2]? = some rop ∧ rop ∈ [next]) :
-    Safe (nextSize resp) (fun _ => True) (fun e => isResult e = true) := by
+    Safe lf (nextSize resp) (fun _ => True) (fun e => isResult e = true) := by
   obtain ⟨d, hd⟩ := h1
   obtain ⟨rop, hr, hm⟩ := h2
   have : rop = next := by simpa using hm
@@ -187,7 +188,7 @@ theorem post_nextSize_safe {op next : UInt8} (hop : op.toNat = 1 ∨ op.toNat = 
   apply (conf_sign hop hd).2
   rw [getD_of_getElem? hr]; exact hn
 
-theorem signTail3_safe (a : SignAuthArgs) (req2 : Nat) : Safe (signTail3 a req2) (fun _ => True) (fun _ => False) := by
+theorem signTail3_safe (a : SignAuthArgs) (req2 : Nat) : Safe lf (signTail3 a req2) (fun _ => True) (fun _ => False) := by
   unfold signTail3
   refine Safe.bind (chunkStep_tracks _ _ _ _ _ _ nextSize_tracks)
     (chunkStep_safe _ _ _ _ _ _ (Or.inr (Or.inl op_receipt)) nextSize_tracks
@@ -197,7 +198,7 @@ theorem signTail3_safe (a : SignAuthArgs) (req2 : Nat) : Safe (signTail3 a req2)
   · exact Safe.pure trivial
   · exact signProof_safe _ _
 
-theorem signTail2_safe (a : SignAuthArgs) (req1 : Nat) : Safe (signTail2 a req1) (fun _ => True) (fun _ => False) := by
+theorem signTail2_safe (a : SignAuthArgs) (req1 : Nat) : Safe lf (signTail2 a req1) (fun _ => True) (fun _ => False) := by
   unfold signTail2
   split
   · exact Safe.pure trivial
@@ -212,7 +213,7 @@ theorem signTail2_safe (a : SignAuthArgs) (req1 : Nat) : Safe (signTail2 a req1)
 /-- an authorized signature against a conforming device never raises, provided the input index
     fits in 32 bits (which `_validate_message` guarantees) -/
 theorem signAuthorized_safe (a : SignAuthArgs) (hin : 0 ≤ a.input ∧ a.input < 2 ^ 32) :
-    Safe (signAuthorized a) (fun _ => True) (fun _ => False) := by
+    Safe lf (signAuthorized a) (fun _ => True) (fun _ => False) := by
   unfold signAuthorized
   split
   · rename_i h; omega
@@ -223,7 +224,7 @@ theorem signAuthorized_safe (a : SignAuthArgs) (hin : 0 ≤ a.input ∧ a.input 
     · exact signTail2_safe _ _
 
 theorem signUnauthorized_safe (path : List Nat) (hash : Option Bytes) :
-    Safe (signUnauthorized path hash) (fun _ => True) (fun _ => False) := by
+    Safe lf (signUnauthorized path hash) (fun _ => True) (fun _ => False) := by
   unfold signUnauthorized
   split
   · exact Safe.pure trivial
@@ -241,7 +242,7 @@ theorem signUnauthorized_safe (path : List Nat) (hash : Option Bytes) :
     · split <;> exact Safe.pure trivial
 
 theorem getPublicKey_safe (path : List Nat) :
-    Safe (getPublicKey path) (fun _ => True) (fun e => isResult e = true) := by
+    Safe lf (getPublicKey path) (fun _ => True) (fun e => isResult e = true) := by
   unfold getPublicKey
   exact (sendCommand_safe' _ _ (by decide)).weaken (fun _ _ => trivial) fun _ h => h
 
